@@ -2,6 +2,7 @@ import BbRe.Model.Outputs
 import BbRe.Lemmas.OutputsPath
 import BbRe.Lemmas.OutputsListing
 import BbRe.Lemmas.OutputsTree
+import BbRe.Lemmas.OutputsErrors
 /-!
 # C10 — reported outputs are exactly what the action produced
 
@@ -142,9 +143,6 @@ theorem exact_listing (env : Env) (force : Bool) (w : Str) (ps : List Str) (up :
       exact flatMap_congr' _ _ _ (fun s _ => (specOne_lists env _ wd r es s).2.2.1)
     · rw [he]
       exact forall_congr' fun s => imp_congr_right fun _ => (specOne_lists env _ wd r es s).2.2.2
-
-/-- The CAS never fails. -/
-def noFaults : Env := ⟨fun _ => false⟩
 
 /-- An `OutputFile` with path string `s` is listed iff `s` is a declared path whose normalised
 location is a regular file with that content id and executable bit (and the CAS accepted it). -/
@@ -374,5 +372,96 @@ theorem directory_listed (env : Env) (up : Bool) (r : Bool) (es : Entries) (s : 
     cases up with
     | false => simp
     | true => simpa using hdirs rfl
+
+/-! ## errors_do_not_lie -/
+
+/-- **Errors do not lie.**  For every CAS fault predicate and every set of unreadable directories:
+if `UploadOutputs` saves no error (`firstError == nil`), then its `ActionResult` entries are, up to
+order, exactly the entries of the fault-free run (`noFaults`) on the same tree - nothing was
+dropped silently - and the fault-free run has no error either.  Contrapositive: whenever a fault
+(failed CAS write of a file, Directory or Tree; failed `ReadDir`) makes an entry or part of a Tree
+disappear, the error is set. -/
+theorem errors_do_not_lie (env : Env) (force : Bool) (w : Str) (ps : List Str) (up : Bool) (hy : Hierarchy)
+    (r : Bool) (es : Entries) (hh : newHierarchy w ps up = .ok hy)
+    (hnil : (hy.uploadOutputs env force (.dir r es)).errs = []) :
+    (hy.uploadOutputs env force (.dir r es)).files.Perm (hy.uploadOutputs noFaults force (.dir r es)).files ∧
+    (hy.uploadOutputs env force (.dir r es)).dirs.Perm (hy.uploadOutputs noFaults force (.dir r es)).dirs ∧
+    (hy.uploadOutputs env force (.dir r es)).symlinks.Perm
+      (hy.uploadOutputs noFaults force (.dir r es)).symlinks ∧
+    (hy.uploadOutputs noFaults force (.dir r es)).errs = [] := by
+  obtain ⟨wd, hw, hf, hd, hs, he⟩ := exact_listing env force w ps up hy r es hh
+  obtain ⟨wd0, hw0, hf0, hd0, hs0, he0⟩ := exact_listing noFaults force w ps up hy r es hh
+  have : wd0 = wd := by rw [hw] at hw0; exact (Except.ok.inj hw0).symm
+  subst this
+  have hall := he.1 hnil
+  have heq : ∀ s ∈ ps, atLoc env (up || force) s (locate wd0 (.dir r es) s) =
+      atLoc noFaults (up || force) s (locate wd0 (.dir r es) s) :=
+    fun s hs' => atLoc_clean_eq env _ s _ (hall s hs').2
+  refine ⟨?_, ?_, ?_, ?_⟩
+  · refine hf.trans (List.Perm.trans (List.Perm.of_eq ?_) hf0.symm)
+    exact flatMap_congr' _ _ _ (fun s hs' => by rw [heq s hs'])
+  · refine hd.trans (List.Perm.trans (List.Perm.of_eq ?_) hd0.symm)
+    exact flatMap_congr' _ _ _ (fun s hs' => by rw [heq s hs'])
+  · refine hs.trans (List.Perm.trans (List.Perm.of_eq ?_) hs0.symm)
+    exact flatMap_congr' _ _ _ (fun s hs' => by rw [heq s hs'])
+  · rw [he0]
+    intro s hs'
+    exact ⟨(hall s hs').1, by rw [← heq s hs']; exact (hall s hs').2⟩
+
+/-- Under faults every listed file and symlink entry is still an entry of the fault-free run
+(listed entries are correct; faults only remove entries - and then `errors_do_not_lie` applies). -/
+theorem faulty_entries_sound (env : Env) (force : Bool) (w : Str) (ps : List Str) (up : Bool) (hy : Hierarchy)
+    (r : Bool) (es : Entries) (hh : newHierarchy w ps up = .ok hy) :
+    (∀ e ∈ (hy.uploadOutputs env force (.dir r es)).files,
+      e ∈ (hy.uploadOutputs noFaults force (.dir r es)).files) ∧
+    (∀ e ∈ (hy.uploadOutputs env force (.dir r es)).symlinks,
+      e ∈ (hy.uploadOutputs noFaults force (.dir r es)).symlinks) := by
+  constructor
+  · rintro ⟨s, c, x⟩ he
+    obtain ⟨wd, hw, h1⟩ := listed_file_iff env force w ps up hy r es hh s c x
+    obtain ⟨wd0, hw0, h0⟩ := listed_file_iff noFaults force w ps up hy r es hh s c x
+    have : wd0 = wd := by rw [hw] at hw0; exact (Except.ok.inj hw0).symm
+    subst this
+    have := h1.1 he
+    exact h0.2 ⟨this.1, this.2.1, rfl⟩
+  · rintro ⟨s, t⟩ he
+    obtain ⟨wd, hw, h1⟩ := listed_symlink_iff env force w ps up hy r es hh s t
+    obtain ⟨wd0, hw0, h0⟩ := listed_symlink_iff noFaults force w ps up hy r es hh s t
+    have : wd0 = wd := by rw [hw] at hw0; exact (Except.ok.inj hw0).symm
+    subst this
+    exact h0.2 (h1.1 he)
+
+/-- The fault-free run saves an error only for a reason visible in the tree: a special file at a
+declared location, a non-directory where a parent directory has to be, or (not a fault of the CAS)
+nothing else. -/
+theorem fault_free_error_iff (force : Bool) (w : Str) (ps : List Str) (up : Bool) (hy : Hierarchy)
+    (es : Entries) (hh : newHierarchy w ps up = .ok hy)
+    (hread : ∀ s ∈ ps, ∀ wd, resolveRel [] w = .ok wd → ∀ r' es', locate wd (.dir true es) s = some (.dir r' es') →
+      cleanDir noFaults (.dir r' es') = true) :
+    ∃ wd, resolveRel [] w = .ok wd ∧
+      ((hy.uploadOutputs noFaults force (.dir true es)).errs = [] ↔
+        ∀ s ∈ ps, parentBlocked wd (.dir true es) s = false ∧ locate wd (.dir true es) s ≠ some .special) := by
+  obtain ⟨wd, hw, -, -, -, he⟩ := exact_listing noFaults force w ps up hy true es hh
+  refine ⟨wd, hw, ?_⟩
+  rw [he]
+  refine forall_congr' fun s => imp_congr_right fun hs => and_congr_right fun _ => ?_
+  cases hloc : locate wd (.dir true es) s with
+  | none => simp [atLoc]
+  | some n =>
+    cases n with
+    | dir r' es' =>
+      have hc := hread s hs wd hw r' es' hloc
+      simp only [atLoc, ne_eq, reduceCtorEq, not_false_eq_true, iff_true]
+      have hu := (uploadDirectory_errs noFaults (.dir r' es')).2 hc
+      unfold uploadOutputDirectoryEntered
+      cases hres : Node.uploadDirectory noFaults (.dir r' es') {} with
+      | mk ro st =>
+        rw [hres] at hu
+        cases ro with
+        | none => simpa using hu
+        | some root => simp at hu; simp [hu, noFaults]
+    | file x c => simp [atLoc, noFaults]
+    | symlink t => simp [atLoc]
+    | special => simp [atLoc]
 
 end BbRe.Properties.C10
